@@ -360,6 +360,10 @@ class OrderedRingBuffer(Generic[FloatArray]):
         assert self.oldest_timestamp is not None and self.newest_timestamp is not None
         start = max(start, self.oldest_timestamp)
         end = min(end, self.newest_timestamp + self._sampling_period)
+        # From here on work with the slots the (clamped) arguments denote, so that
+        # the window and the gaps are computed from the same, aligned, timestamps.
+        start = self.normalize_timestamp(start)
+        end = self.normalize_timestamp(end)
 
         if start >= end:
             return np.array([]) if isinstance(self._buffer, np.ndarray) else []
